@@ -180,6 +180,36 @@ func init() {
 			ex.bytesArrIn(dst.Arr.(*BytesNode), dst.Off, dst.Len, arr, pos)
 			return nil
 		},
+		"UF": func(ex *Exec, fn *ssa.Function, args []Value) Value {
+			name := ex.argStr(args[0], "function name")
+			a, b, c := args[1].(IntV).T, args[2].(IntV).T, args[3].(IntV).T
+			if ex.concMode {
+				return IntV{ex.tf.Const(8, ex.concrete[fmt.Sprintf("%s[%d,%d,%d]", name, a.val, b.val, c.val)])}
+			}
+			return IntV{ex.tf.Apply(name, 8, a, b, c)}
+		},
+		"MapBytes": func(ex *Exec, fn *ssa.Function, args []Value) Value {
+			dst, src := args[0].(SliceV), args[1].(SliceV)
+			name := ex.argStr(args[2], "function name")
+			tag := args[3].(IntV).T
+			if src.Arr == nil {
+				return nil
+			}
+			ex.require(ex.tf.Ule(src.Len, dst.Len), "index", "verifrt.MapBytes", "dst shorter than src")
+			d := dst.Arr.(*BytesNode)
+			snap := src.Arr.(*BytesNode).freeze()
+			d.freeze()
+			d.head = newLayer(layer{kind: lMap, lo: dst.Off, n: src.Len, src: snap, slo: src.Off, arr: name, idx: tag, next: d.head})
+			return nil
+		},
+		"SameSlice": func(ex *Exec, fn *ssa.Function, args []Value) Value {
+			a, b := args[0].(SliceV), args[1].(SliceV)
+			tf := ex.tf
+			if a.Arr != b.Arr {
+				return BoolV{tf.BAnd(tf.Eq(a.Len, tf.Const(64, 0)), tf.Eq(b.Len, tf.Const(64, 0)))}
+			}
+			return BoolV{tf.BAnd(tf.Eq(a.Len, b.Len), tf.BOr(tf.Eq(a.Len, tf.Const(64, 0)), tf.Eq(a.Off, b.Off)))}
+		},
 		"Assume": func(ex *Exec, fn *ssa.Function, args []Value) Value {
 			ex.assume(args[0].(BoolV).T)
 			return nil
